@@ -351,10 +351,15 @@ def _case_hist(draw):
     n = draw(st.integers(3, 5))
     L = draw(st.integers(2, 6))
     regime = draw(st.sampled_from(['L', 'F']))
+    # a history concentrates on one to three kinds of operation and on few series, so that the same model object /
+    # the same pair is revisited several times within one history (a uniform draw over 14 kinds x 5 x 5 arguments
+    # almost never calls the same stateful object twice)
+    kinds = draw(st.lists(st.sampled_from(HIST_OPS), min_size=1, max_size=3, unique=True))
+    imax = draw(st.sampled_from([0, 1, 4]))
     return {'series': [draw(gen.series(L, L, regime, 1)) for _ in range(n)],
             'cont': draw(st.sampled_from(['list-ndarray', '2d', '2d-strided', 'list-strided', '2d-F', 'container'])),
             'opts': draw(st.sampled_from([{}, {'window': 2}, {'window': 2, 'penalty': 0.5}])),
-            'ops': draw(st.lists(st.tuples(st.sampled_from(HIST_OPS), st.integers(0, 4), st.integers(0, 4)), min_size=2,
+            'ops': draw(st.lists(st.tuples(st.sampled_from(kinds), st.integers(0, imax), st.integers(0, 4)), min_size=2,
                                  max_size=7).map(lambda l: [list(x) for x in l]))}
 
 
@@ -401,7 +406,11 @@ def _hist_apply(op, coll, opts, models, n):
         key = 'ss%d' % i
         if key not in models:
             models[key] = SubsequenceSearch(a, [sc[k] for k in range(n)], dists_options=dict(opts))
-        k = 1 + j % 3
+        # the same object answers a sequence of differently limited requests: best match, k = 1..3, all (k=None)
+        if j % 5 == 0:
+            m = models[key].best_match()
+            return [(float(m.distance), int(m.idx))]
+        k = None if j % 5 == 4 else j % 5
         return [(float(m.distance), int(m.idx)) for m in models[key].kbest_matches(k=k)]
     if kind == 'hier':
         if 'hier' not in models:
@@ -456,6 +465,13 @@ def run_hist(case):
             res.fail('hist:input-modified:' + op[0], 'the shared series were modified by operation %d %r' % (k, op))
             snap0 = snapshot(shared_coll)
     res.nontrivial = len(case['ops']) >= 2
+    seen = set()
+    for op in case['ops']:
+        key = (op[0], op[1] % n) if op[0] == 'search_reuse' else op[0]
+        if key in seen and op[0] in ('search_reuse', 'hier', 'hier_tree', 'kmeans'):
+            res.cls('model-object-reused')
+            break
+        seen.add(key)
     return res
 
 
